@@ -30,6 +30,17 @@ class Infra(Exception):
     """Infrastructure failure: exit 2, never a verdict."""
 
 
+class ModelViolation(Infra):
+    """TLC found a counterexample in the model alone. Carries the result so that a check can replay the
+    counterexample's behaviour (res.cex[-1]["hist"]) on the real code before deciding."""
+
+    def __init__(self, res, spec_dir, module, cfg):
+        self.res = res
+        tail = "\n".join([l for l in res.out.splitlines() if not l.startswith('"@@')][-25:])
+        super().__init__("model-only counterexample (%s violated in %s/%s %s): the model is wrong or the design admits a "
+                         "bad state; not a verdict about the code until reproduced\n%s" % (res.violated, spec_dir, module, cfg, tail))
+
+
 class TLCResult:
     def __init__(self):
         self.rc = None
@@ -43,6 +54,7 @@ class TLCResult:
         self.error = None      # other TLC error text
         self.coverage_zero = []
         self.wall = 0.0
+        self.cex = None        # on a violated invariant: list of states (dicts) of the counterexample
 
     @property
     def ok(self):
@@ -105,8 +117,13 @@ class Ctx:
         self.level = "model_checking"
         self._kf = None
         self.quick = tier == "quick"
+        self._parts = [x for x in os.environ.get("VERIF_PARTS", "").split(",") if x]   # development aid only
 
     # ------------------------------------------------------------------ util
+    def want(self, part):
+        """Development aid: VERIF_PARTS=a,sim restricts a check to the named parts (registered commands never set it)."""
+        return not self._parts or part in self._parts
+
     def log(self, *a):
         print("[%s %6.1fs]" % (self.prop, time.time() - self.t0), *a, flush=True)
 
@@ -173,6 +190,8 @@ class Ctx:
                     "-seed", str(self.seed)]
         elif dfid:
             cmd += ["-dfid", str(dfid)]
+        cexp = os.path.join(run_dir, "cex.json")
+        cmd += ["-dumpTrace", "json", cexp]
         if coverage:
             cmd += ["-coverage", "1"]
         if extra_args:
@@ -197,10 +216,18 @@ class Ctx:
         res.wall = time.time() - t
         self._parse_tlc(res)
         shutil.rmtree(meta, ignore_errors=True)
+        if res.violated and os.path.exists(cexp):
+            try:
+                with open(cexp) as f:
+                    res.cex = [st[1] for st in json.load(f)["counterexample"]["state"]]
+            except Exception:
+                res.cex = None
         if res.error and not res.violated:
             tail = "\n".join(res.out.splitlines()[-40:])
             raise Infra("TLC error on %s/%s %s: %s\n%s" % (spec_dir, module, cfg, res.error, tail))
         if res.violated and not allow_violation:
+            raise ModelViolation(res, spec_dir, module, cfg)
+        if False:
             tail = "\n".join([l for l in res.out.splitlines() if not l.startswith('"@@')][-60:])
             raise Infra("model-only counterexample (%s violated in %s/%s %s): the model is wrong or the "
                         "design admits a bad state; not a verdict about the code until reproduced\n%s"
@@ -339,7 +366,7 @@ class Ctx:
         done = False
         for r in gr.records:
             k = r.get("kind")
-            if k == "violation":
+            if k in ("violation", "deviation"):
                 self.add_violation(r.get("msg", ""), r.get("sig", ""), r.get("case"))
             elif k == "drift":
                 self.drift += 1
